@@ -125,6 +125,18 @@ func newBuild(shape int, A, B, C []byte) (*hlib.Build, bool) {
 	case 31: // directory sub becomes a symlink to the renamed directory holding its content
 		n.Files[2].Path = "sub2/C"
 		n.Links = append(n.Links, hlib.Link{Path: "sub", Dest: "sub2"})
+	// old build variant with content two levels below a directory (deep/x/D); see oldBuild
+	case 34: // deep becomes a symlink to the renamed directory that holds its unchanged content
+		n.Files = append(n.Files, hlib.File{Path: "deep2/x/D", Data: clone(C)})
+		n.Links = append(n.Links, hlib.Link{Path: "deep", Dest: "deep2"})
+	case 35: // the same with the nested file's content replaced
+		n.Files = append(n.Files, hlib.File{Path: "deep2/x/D", Data: rt.Bytes("newD", 3)})
+		n.Links = append(n.Links, hlib.Link{Path: "deep", Dest: "deep2"})
+	case 36: // deep becomes a file, its nested content moves elsewhere
+		n.Files = append(n.Files, hlib.File{Path: "D2", Data: clone(C)}, hlib.File{Path: "deep", Data: rt.Bytes("fresh", 2)})
+	case 37: // deep becomes a symlink to an existing directory, its nested content moves to the top level
+		n.Files = append(n.Files, hlib.File{Path: "D2", Data: clone(C)})
+		n.Links = append(n.Links, hlib.Link{Path: "deep", Dest: "dd"})
 	default:
 		return nil, false
 	}
@@ -136,6 +148,10 @@ func oldBuild(shape int, A, B, C []byte) *hlib.Build {
 	old := &hlib.Build{Files: []hlib.File{{Path: "A", Data: A}, {Path: "B", Data: B}, {Path: "sub/C", Data: C}}, Dirs: []string{"dd"}, Links: []hlib.Link{{Path: "ln", Dest: "A"}}}
 	if shape >= 24 && shape <= 26 {
 		old.Links = append(old.Links, hlib.Link{Path: "cur", Dest: "sub"})
+	}
+	if shape >= 34 && shape <= 37 {
+		// (same bytes as C: the generic-position assumption then lets it be the very same symbols)
+		old.Files = append(old.Files, hlib.File{Path: "deep/x/D", Data: clone(C)})
 	}
 	return old
 }
